@@ -426,6 +426,9 @@ def ensure_repo_on_path():
         sys.path.insert(0, REPO)
     # never write bytecode into the repository under test
     sys.dont_write_bytecode = True
+    # the drivers log every dropped frame; keep the checks' output to verdict lines
+    import logging
+    logging.disable(logging.CRITICAL)
 
 
 # ---------------------------------------------------------------------------
